@@ -1016,6 +1016,11 @@ func (f *Frame) doNext(x *ssa.Next) {
 		f.typeFacts(k, it.mt.Key())
 		f.typeFacts(v, it.mt.Elem())
 		f.loadFacts(v, it.mt.Elem())
+		if cl := f.p.elemInvs[types.TypeString(it.mt, func(p *types.Package) string { return "" })]; cl != nil {
+			tr := &Translator{f: f, cur: f.st, old: f.st, bound: map[string]tv{"v": {v, it.mt.Elem()}}}
+			f.enc.factAbout(v, Implies(ok, tr.boolExpr(cl.Expr)))
+			f.enc.assumed["data-structure invariant (trusted): values of "+types.TypeString(it.mt, nil)+": "+cl.Src] = true
+		}
 		f.tuples[x] = []T{ok, k, v}
 		f.stSet(it.stvar, Ite(ok, Store(seenT, k, True), seenT))
 		f.enc.assumed["map iteration visits each key of the entry-time domain exactly once (writes to existing keys only during iteration)"] = true
